@@ -478,5 +478,5 @@ func predReq(c reqCase, o *evid.Obs) error {
 }
 
 func addRequest(r *evid.Run) {
-	evid.Add(r, evid.Prop[reqCase]{Name: "request", Quick: 2000, Thorough: 6000, Gen: genReq(r.Tier == "thorough"), Pred: predReq, WAL: true})
+	evid.Add(r, evid.Prop[reqCase]{Name: "request", Quick: 3000, Thorough: 6000, Gen: genReq(r.Tier == "thorough"), Pred: predReq, WAL: true})
 }
